@@ -35,7 +35,11 @@ var targets = map[string][]string{
 	"lib/server/ipdb/duid": {"Duid.String"},
 	"lib/server/ipdb/clients": {"NewClients", "Clients.Lookup", "Clients.InjectPermanent", "Clients.Inject", "Clients.injectInternal",
 		"Clients.SetLease", "Clients.Expire", "client.Uip", "client.LeasedUntil"},
-	"lib/server":          {"duidFromHwAddr", "server.dhcpOptions", "server.getDuid", "server.handleMsg", "server.handleDiscover", "server.handleRequest", "server.sendNACK", "server.sendMsg"},
+	"lib/arpping":         {"catchARPReply", "Ping"},
+	"lib/client/dclient": {"catchReply", "dclient.Run", "dclient.ResumeClient", "dclient.buildNetconfig", "dclient.runStateDiscovering", "dclient.runStateSelecting",
+		"dclient.runStateBound", "dclient.runStateRenewing", "dclient.runStateRebinding", "dclient.runStatePurgeInterface", "dclient.runStateIfconfig",
+		"dclient.runStateArpCheck", "dclient.panicReset"},
+	"lib/server":          {"duidFromHwAddr", "server.dhcpOptions", "server.Run", "server.arpVerify", "server.getDuid", "server.handleMsg", "server.handleDiscover", "server.handleRequest", "server.sendNACK", "server.sendMsg"},
 	"lib/client/verify":   {"verifyCommon", "verifyGenAck", "VerifyOffer", "VerifySelectingAck", "VerifyRenewingAck", "VerifyRebindingAck"},
 	"lib/client/msgtmpl":  {"tmpl.request"},
 	"lib/dhcpmsg": {"Decode", "Message.Assemble", "setU16Int", "setU32Int", "setIPv4", "OptionType", "OptionHostname", "OptionDomainName",
@@ -264,7 +268,9 @@ func (x *X) shape(fi *FuncInfo, depth int) {
 	case *ast.FuncLit:
 		for _, f := range r.Type.Params.List {
 			for _, id := range f.Names {
-				fi.params = append(fi.params, fi.pkg.TypesInfo.Defs[id].(*types.Var))
+				if v := fi.pkg.TypesInfo.Defs[id].(*types.Var); !dropped(v.Type()) {
+					fi.params = append(fi.params, v)
+				}
 			}
 		}
 		fi.body = r.Body.List
